@@ -413,7 +413,7 @@ func RunEnvCase(seed int64, exe, workDir string) *HistResult {
 	}
 	defer os.RemoveAll(dir)
 	// names: every non-empty subset of the three levels defines some name; some names are prefixes of others
-	names := []string{"PXV_A", "PXV_A_TOKEN", "PXV_B", "PXV_BB", "PXV_C", "TASK_NAME_EXTRA", "PXV_D", "PXV_LONG", "PXV_E", "PXV_TASKONLY"}
+	names := []string{"PXV_A", "PXV_A_TOKEN", "PXV_B", "PXV_BB", "PXV_C", "TASK_NAME_EXTRA", "PXV_D", "PXV_LONG", "PXV_E", "PXV_TASKONLY", "ARGS", "HOME_PXV", "Args"}
 	val := func() string {
 		v := envValues[r.Intn(len(envValues))]
 		if r.Intn(25) == 0 {
